@@ -777,21 +777,30 @@ def chunks(xs, n):
 def run(ctx):
     ctx.rule = ("a case is an abstract model shape (tree of Model/Collection/TuplePrior nodes with prior identities and a creation "
                 "order, built by the driver through the real API) x a sample set (binary64 incl. subnormal, 1.8e308, -0.0, inf, "
-                "random bit patterns) persisted through csv+info, summary json, aggregator SearchOutput, database rows (all / "
-                "minimised), plus re-saved database fits and real Drawer fits run twice; non-trivial = at least 2 parameters and 2 "
+                "random bit patterns; handed over as Python floats, numpy scalars or numpy arrays) persisted through csv+info, "
+                "csv saved again after a reload, summary json, aggregator SearchOutput, database rows (all / minimised), database "
+                "summary, latent samples (csv, aggregator, database), a directory scraped into a database (Aggregator.from_directory + "
+                "Scraper), plus re-saved database fits and real Drawer fits run twice; non-trivial = at least 2 parameters and 2 "
                 "samples and one of {nesting depth >= 2, shared prior, tuple prior, mixed path depth}; distinct = distinct abstract case")
     ctx.trusted = [
         "Coq 8.16.1 kernel incl. vm_compute; primitive floats (PrimFloat) are kernel primitives",
         "correspondence harness c09.py / impl/c09_impl.py (abstraction of Sample kwargs into KStr/KTup keys, float.hex transport)",
-        "Python: str(float)/float(str), json float text, csv module, numpy array storage and sqlite BLOB/REAL columns round-trip "
-        "binary64 (hypothesis parse (fmt v) = v of the theorems; tested bit-for-bit by the oracle on every generated value)",
-        "modelled not verified: model.json / database round trip of the model itself (C08), numpy quantile arithmetic (medians and "
-        "errors are functions of the reloaded columns), set iteration order in Samples.minimise (either order accepted)",
+        "the text layer is NOT modelled: check_case instantiates text-of-float and float-of-text with the identity; padding, "
+        "strip, csv quoting, JSON float text, numpy array storage and sqlite columns are covered by the hypothesis parse (fmt v) = v "
+        "of the theorems and by the oracle only (cells compared bit for bit after the code's own float(), and their decimal text "
+        "checked by exact rational arithmetic to round to the persisted binary64)",
+        "medians and errors at sigma are numpy quantile arithmetic: no theorem speaks about them; the oracle compares them between "
+        "the persisted and the reloaded samples, C09_best_fit covers the best-fit vector only",
+        "modelled not verified: model.json / database round trip of the model itself (C08), set iteration order in Samples.minimise "
+        "(either order accepted), sign of a zero stored in an SQLite REAL column (latent samples in the database)",
     ]
     ctx.assumptions = [
-        "theorems are over every id-sorted walk with distinct paths (NoDup), dot-free attribute names, and text/float round trip",
-        "C09_loadable is refuted for the pinned code (mixed path depth; parameter named like a reserved column); *_partial state the guards",
-        "the *_fixed theorems are about Sample.__init__ as changed by proposed_fixes/C09-mixed-depth-keys.diff (Variant.code_is_fixed)",
+        "theorems are over every id-sorted walk with distinct paths (NoDup) and dot-free attribute names, C09_shapes / C09_tree_* "
+        "give this for every well-formed model tree; text/float round trip is a hypothesis",
+        "C09_tree_csv / C09_tree_summary / C09_tree_db are about the code as it is now (Variant.code_is_fixed = true, "
+        "dict_drops_zero = false); the *_refuted / *_partial theorems with fx = false document the pinned code before the fixes",
+        "C09_reserved_name_refuted: still true of the current code (known finding); names of different priors must differ only for "
+        "models whose unique paths are all single names (automatic without tuple priors)",
     ]
     built = ctx.build()
     cases = gen_cases(ctx)
@@ -866,15 +875,18 @@ def run(ctx):
 
 MANIFEST = {
     "text": "Coq 8.16 theorems over an executable model of Sample key handling, parameter lookup by path/name, the samples.csv "
-            "writer/reader, the summary JSON form and EfficientSamples (database): for every id-sorted model walk with distinct "
-            "paths and every sample list the reloaded samples give the same value per parameter, log-likelihood, log-prior and "
-            "weight in order (database: unconditionally; csv/summary: for uniform path depth, with the mixed-depth and "
-            "reserved-column-name failures kept as refuted full statements and proved for the proposed fix), hence the same best "
-            "fit and any statistic of the columns; plus bit-exact vm_compute correspondence with the running code on generated "
-            "model shapes x extreme floats over csv, aggregator, summary, database routes and a direct property oracle incl. real "
-            "fits run twice",
-    "note": "Trusted: Coq kernel + vm_compute, the correspondence harness, text/JSON/numpy/sqlite round trip of binary64 (hypothesis, "
-            "tested bit-for-bit by the oracle), model.json/database round trip of the model itself (C08). The pinned code fails the "
-            "property for models mixing single-name and nested parameter paths (known finding, fix proposed).",
+            "writer/reader (cells abstract), the summary JSON form and EfficientSamples (database): for every well-formed model tree "
+            "and every sample list the reloaded samples give the same value per parameter, log-likelihood, log-prior and weight in "
+            "order -- database rows unconditionally (all samples, the minimised list, a scraped directory), csv and summary for the "
+            "code as it is now under the single guard 'no top-level parameter named like a reserved column' (kept as a refuted full "
+            "statement / known finding); value per path is independent of the prior numbering of a re-created model; hence the same "
+            "best-fit vector; plus vm_compute correspondence of keys / lookups / exceptions with the running code on generated model "
+            "shapes x extreme floats (Python and numpy) over csv, re-saved csv, aggregator, summary, database, scrape and latent "
+            "routes and a direct property oracle incl. real fits run twice",
+    "note": "Trusted: Coq kernel + vm_compute, the correspondence harness; the text layer (decimal text of floats, padding, JSON, "
+            "numpy, sqlite) is a hypothesis of the theorems and is checked by the oracle only, bit for bit; medians and error "
+            "estimates are compared by the oracle only (no theorem); model.json/database round trip of the model itself is C08. "
+            "Known findings: reserved column names, positional error vectors read against a re-created model, stale samples after "
+            "a second database save.",
     "technique": "machine-checked proof in Coq (hand-written executable model) + vm_compute correspondence + property oracle",
 }
